@@ -79,6 +79,11 @@ def check(ctx: Ctx):
         ctx.check(ok, 'R20.2', fn.short, fn.loc(lp), f'level loop is range(self.{dens})',
                   f'the level loop of {fn.short} iterates {ast.unparse(it)}, not range(self.{dens}): the curve is '
                   f'not built to the configured density', key=f'R20.2::{fn.short}::level-loop')
+    # every trial point is an evolvent image (of the solver's evolvent): a trial built from anything else is not
+    # on the grid whatever the density
+    ctx.rule('R20.4', 'every search item the library constructs is Item(Point(GetImage(t)), t) (= R06.5), re-run here')
+    from . import c06
+    c06.r06_5_all_items(ctx)
     roles = C.roles_of(ctx)
     for m in roles.attr_writers(dens, e.cls):
         ctx.fail('R20.3', m.func.short, m.loc(), f'the density attribute is rewritten: {m.text()}',
